@@ -22,6 +22,38 @@ reg(
     "float64 tolerances 1e-9 relative; mpmath 40-digit arithmetic is trusted as the reference for mel/Bark.",
 )
 
+reg(
+    "C01",
+    "Hypothesis property-based testing over (configuration, signal, composition into chunks) with compute_full on a fresh instance as oracle; exhaustive enumeration of all compositions for small L, S, N",
+    "Generated chunkings (empty and single-sample chunks, cuts around frame boundaries) for STFT and short-integration computers plus the complete set of compositions of every N<=10 (quick: 6) for L<=8 (quick: 4); "
+    "compares frame counts, values and dtype with compute_full. Found and now guards F01a/F01b/F01c/F03.",
+    "compute_full is the reference (itself judged by C02/C03); float tolerances 1e-9 (STFT) / 1e-7 (SI); 1 kHz sampling rate, frame lengths <= 64.",
+)
+reg(
+    "C02",
+    "Hypothesis property-based testing against an independent full-spectrum reference model of the documented STFT definition",
+    "Every quantifier of the statement is a generator dimension (bank class/scale, L/S parity, DFT size mod 4, style, kaldi_shift, window, log/power/energy, N around the boundaries); the oracle rebuilds H_i from get_truncated_response by the documented recipe and sums over the full DFT. Found and now guards F02.",
+    "np.fft.fft and the bank's get_truncated_response (judged by C06) are trusted; tolerance 1e-9 of the column maximum.",
+)
+reg(
+    "C03",
+    "Hypothesis property-based testing against an independent time-domain reference (np.convolve, no FFT/overlap-save)",
+    "Generated banks, shifts inside the precondition, styles, windows, flags, four float dtypes and signal lengths around DFT-block multiples; oracle = window-weighted sum of |x*h|^p with the clamped impulse response, +-1 sample alignment accepted. Found F03 and caught a wrong first repair of it.",
+    "bank.get_impulse_response (judged by C07) and bank.supports are trusted; tolerance 1e-7 of the column maximum plus output-dtype rounding.",
+)
+reg(
+    "C04",
+    "Model-based testing: Hypothesis-generated operation histories against a `started` model and a freshly constructed twin instance per utterance (bit-identical outputs)",
+    "Histories of up to 40 chunk/finalize/compute_full/frame_by_frame/refused calls on one instance with read-only inputs; any state leaking across utterances, a disturbed utterance or a modified input shows as a bit-level mismatch.",
+    "a fresh instance of the same configuration is the reference; empty results compared by shape only.",
+)
+reg(
+    "C14",
+    "Differential property-based testing (PyTorch module vs NumPy counterpart, TorchScript vs eager) plus metamorphic/statistical relations for dither",
+    "C02's configuration space through from_stft_frame_computer in double/single/default precision, wrappers for pre-/post-processors and SI, scripted modules, dither reproducibility/independence/moments. Found and now guards F14a and the torch port of F02.",
+    "NumPy implementations are the reference (judged by C02/C03/C15/C16/C18); tolerances 1e-9 double, 2e-4 single.",
+)
+
 NOT_APPLICABLE = {}
 
 
